@@ -17,7 +17,7 @@ func init() {
 // O_CREATE and O_TRUNC, syncs before it renames, and renames the temporary name over the file.
 func genStorage(sb *strings.Builder) error {
 	fset := token.NewFileSet()
-	f, err := parser.ParseFile(fset, "/repo/storage/storage_json.go", nil, 0)
+	f, err := parser.ParseFile(fset, repoRoot()+"/storage/storage_json.go", nil, 0)
 	if err != nil {
 		return err
 	}
@@ -72,7 +72,7 @@ func init() {
 // genPeeringLocks: AddLink and RemoveLink of the peering registry hold linksLock for their whole body.
 func genPeeringLocks(sb *strings.Builder) error {
 	fset := token.NewFileSet()
-	f, err := parser.ParseFile(fset, "/repo/peering/peering.go", nil, 0)
+	f, err := parser.ParseFile(fset, repoRoot()+"/peering/peering.go", nil, 0)
 	if err != nil {
 		return err
 	}
@@ -99,7 +99,7 @@ func init() {
 func genSessionLocks(sb *strings.Builder) error {
 	fset := token.NewFileSet()
 	locked := map[string]bool{}
-	for _, file := range []string{"/repo/state/session.go", "/repo/state/session_signing.go", "/repo/state/session_encryption.go"} {
+	for _, file := range []string{repoRoot() + "/state/session.go", repoRoot() + "/state/session_signing.go", repoRoot() + "/state/session_encryption.go"} {
 		f, err := parser.ParseFile(fset, file, nil, 0)
 		if err != nil {
 			return err
@@ -121,7 +121,7 @@ func genSessionLocks(sb *strings.Builder) error {
 	// one session object per sender: State.GetSession looks up, creates and registers under
 	// sessionsLock for its whole body
 	{
-		f, err := parser.ParseFile(fset, "/repo/state/state.go", nil, 0)
+		f, err := parser.ParseFile(fset, repoRoot()+"/state/state.go", nil, 0)
 		if err != nil {
 			return err
 		}
@@ -208,7 +208,7 @@ func lockedFromLock(fn *ast.FuncDecl) bool {
 // the operation sequences the history model ranges over.
 func genTableLocks(sb *strings.Builder) error {
 	fset := token.NewFileSet()
-	f, err := parser.ParseFile(fset, "/repo/m/table.go", nil, 0)
+	f, err := parser.ParseFile(fset, repoRoot()+"/m/table.go", nil, 0)
 	if err != nil {
 		return err
 	}
